@@ -8,8 +8,8 @@ From Coq Require Import List NArith ZArith QArith Bool Floats Permutation Sorted
 From Pcfg Require Import ProbAlg F64 TextFile Counters CountersProofs LtallyProofs IoFloatFacts CountersF64 IoFacts.
 From Pcfg Require Import SmallGenProofsProbs.
 From PcfgGen Require Import Small_probs_gen.
-From Pcfg Require Import WriterRt WriterSpec WriterGenProofsStruct.
-From PcfgGen Require Import WriterStruct_gen.
+From Pcfg Require Import WriterRt WriterSpec WriterGenProofsStruct WriterGenProofs.
+From PcfgGen Require Import WriterStruct_gen Writer_gen.
 Import ListNotations.
 
 (* A list written from the tally of an item sequence: the lines are
@@ -253,6 +253,102 @@ Example C06_source_struct_example :
   @py_run_trainer_markov_block QNum (3 # 5)%Q 3 [([49]%N, 1%Q)] [([65;52]%N, 3%Q)] = Norm [([65;52]%N, 3%Q); ([77]%N, (3 / (3 # 5) - 3)%Q)].
 Proof. exact struct_example. Qed.
 
+(* ---- translator tie (gen/Writer_gen.v): the Python text of calculate_and_save_counter,
+   save_indexed_counters and save_pcfg_data (lib_trainer/save_pcfg_data.py), translated on every
+   run, with the translated calculate_probabilities, over the file system of WriterRt.v (a map from
+   paths to text; os.walk + os.unlink; the codec as the oracle encb; str(float) as the oracle repr) ---- *)
+
+(* the file is created or truncated and holds str(value) TAB str(count / total) LF for the items in
+   most_common order; a line the codec cannot encode ends the writing, the function returns False *)
+Theorem C06_source_calculate_and_save_counter_is_model :
+  forall (O : numops) (repr : num O -> str) (encb : str -> N -> bool) (nmul : num O -> num O -> num O) (ud : str * num O)
+         (p : path) (c : counter O) (enc : str) (fs : fsys),
+  py_calculate_and_save_counter repr encb (py_calculate_probabilities nmul ud) p c enc fs =
+  if encodable repr encb enc (calc_probs c) then (Ok true, fs_set p (write_text repr (calc_probs c)) fs)
+  else (Ok false, fs_set p (write_text repr (encodable_prefix repr encb enc (calc_probs c))) fs).
+Proof. exact (@source_save_counter_eq). Qed.
+
+(* binary64: that text is TextFile.write_file, the writer C07's round trips are about *)
+Theorem C06_source_text_is_write_file : forall (repr : float -> str) (l : list (str * float)),
+  @write_text FNum repr l = write_file repr l.
+Proof. exact write_text_F64. Qed.
+
+(* the folder is emptied at every depth (whatever it held), then holds one file per key, named
+   str(key).txt, with the lines of its counter: Counters.save_indexed; the rest of the disk stays *)
+Theorem C06_source_save_indexed_counters_is_model :
+  forall (O : numops) (repr : num O -> str) (encb : str -> N -> bool) (nmul : num O -> num O -> num O) (ud : str * num O)
+         (folder : path) (cl : list (pykey * counter O)) (enc : str) (fs : fsys),
+  fs_wf fs ->
+  (all_encodable repr encb enc cl = true ->
+   py_save_indexed_counters repr encb (py_calculate_probabilities nmul ud) folder cl enc fs =
+   (Ok true, fs_install folder (folder_texts repr (save_indexed [] (str_keys cl))) fs)) /\
+  (all_encodable repr encb enc cl = false ->
+   exists fs', py_save_indexed_counters repr encb (py_calculate_probabilities nmul ud) folder cl enc fs = (Ok false, fs')).
+Proof. exact (@source_save_indexed_eq). Qed.
+
+(* the whole ruleset is Counters.save_pcfg_data, installed folder by folder below the base directory *)
+Theorem C06_source_save_pcfg_data_is_model :
+  forall (O : numops) (repr : num O -> str) (encb : str -> N -> bool) (nmul : num O -> num O -> num O) (ud : str * num O)
+         (base : path) (P : pcounters) (sens : bool) (cov : num O) (n : N) (enc : str) (fs : fsys),
+  fs_wf fs -> ruleset_encodable repr encb enc (save_pcfg_data O P sens cov n) = true ->
+  py_save_pcfg_data repr encb (py_calculate_probabilities nmul ud) base
+    (parser_of O P (with_markov cov n (of_counts (sc_base (pc_structs P))))) enc sens fs =
+  (Ok true, install_all repr base (save_pcfg_data O P sens cov n) fs).
+Proof. exact (@source_save_pcfg_data_eq). Qed.
+
+(* C06_each_once_sorted for the file the translated writer leaves on disk *)
+Theorem C06_source_file_each_once_sorted : forall (repr : num QNum -> str) (encb : str -> N -> bool)
+    (nmul : num QNum -> num QNum -> num QNum) (ud : str * num QNum)
+    (p : path) (enc : str) (fs : fsys) (items : list str), items <> [] ->
+  let c := @of_counts QNum (tally items) in
+  @encodable QNum repr encb enc (calc_probs c) = true ->
+  exists file : counter QNum,
+    @py_calculate_and_save_counter QNum repr encb (@py_calculate_probabilities QNum nmul ud) p c enc fs =
+      (Ok true, fs_set p (@write_text QNum repr file) fs) /\
+    file = map (fun kv => (fst kv, (snd kv / total c)%Q)) (most_common c) /\
+    Permutation (most_common c) c /\
+    NoDup (map fst file) /\
+    (forall v, In v (map fst file) <-> In v items) /\
+    (forall v q, In (v, q) file ->
+       (q == inject_Z (Z.of_nat (count_str v items)) / inject_Z (Z.of_nat (length items)))%Q) /\
+    StronglySorted (fun a b => (snd b <= snd a)%Q) file /\
+    (forall q : Q, filter (fun kv => Qeq_bool (snd kv) q) (most_common c) = filter (fun kv => Qeq_bool (snd kv) q) c) /\
+    map fst c = nodup_first items.
+Proof. exact source_file_each_once_sorted. Qed.
+
+(* C06_length_indexed for the folder the translated writer leaves on disk: one file per length, in
+   first-seen order, named <length>.txt, each the list of the items of that length *)
+Theorem C06_source_length_indexed :
+  forall (O : numops) (repr : num O -> str) (encb : str -> N -> bool) (nmul : num O -> num O -> num O) (ud : str * num O)
+         (folder : path) (enc : str) (fs : fsys) (l : list str),
+  fs_wf fs -> all_encodable repr encb enc (klkeys (ltally l)) = true ->
+  exists fs', py_save_indexed_counters repr encb (py_calculate_probabilities nmul ud) folder (klkeys (ltally l)) enc fs = (Ok true, fs') /\
+    fs_list folder fs' =
+    map (fun n => (file_name (dec_of_N n), write_text repr (calc_probs (of_counts (tally (filter (len_is n) l))))))
+        (nodup_first_N (map slen l)).
+Proof. exact (@source_length_indexed). Qed.
+
+(* the hypotheses are satisfiable and the generated writers run *)
+Example C06_source_save_example :
+  let repr : num QNum -> str := fun q => if Qeq_bool q (1 # 2) then [48;46;53]%N else [49;46;48]%N in
+  let encb (enc : str) (c : N) : bool := N.ltb c 128 in
+  let calc := @py_calculate_probabilities QNum Qmult ([], 0%Q) in
+  let folder : path := [[82]; [65]]%N in
+  let fs0 : fsys := [([[82]; [65]; [57;46;116;120;116]], [120]); ([[82]; [65]; [115]; [111]], [121]); ([[82]; [68]; [49]], [122])]%N in
+  let cl : list (pykey * counter QNum) := [(KInt 1, [([97]%N, 1%Q); ([98]%N, 1%Q)]); (KInt 2, [([99;100]%N, 3%Q)])] in
+  fs_wf fs0 /\ all_encodable repr encb [] cl = true /\
+  py_save_indexed_counters repr encb calc folder cl [] fs0 =
+    (Ok true, [([[82]; [68]; [49]], [122]);
+               ([[82]; [65]; [49;46;116;120;116]], [97;9;48;46;53;10;98;9;48;46;53;10]);
+               ([[82]; [65]; [50;46;116;120;116]], [99;100;9;49;46;48;10])]%N) /\
+  fst (py_save_indexed_counters repr encb calc folder [(KInt 1, [([233]%N, 1%Q)])] [] fs0) = Ok false.
+Proof. exact source_save_example. Qed.
+
+Print Assumptions C06_source_calculate_and_save_counter_is_model.
+Print Assumptions C06_source_save_indexed_counters_is_model.
+Print Assumptions C06_source_save_pcfg_data_is_model.
+Print Assumptions C06_source_file_each_once_sorted.
+Print Assumptions C06_source_length_indexed.
 Print Assumptions C06_source_base_structure_creation_is_model.
 Print Assumptions C06_source_prince_evaluation_is_model.
 Print Assumptions C06_source_parse_tail_is_model.
